@@ -359,14 +359,20 @@ def build_stream(sc):
     return sep.join(parts), expected
 
 
-def decode_stream(stream, cache_max):
-    """in a forked child: [(values, labels, bytes) | ('error', ...)] for every message the scan yields"""
+def decode_stream(stream, cache_max, side=None):
+    """in a forked child: [(values, labels, bytes) | ('error', ...)] for every message the scan yields.  side: the bytes of
+    another stream (standard descriptors only) that is scanned from start to end, by another decoder object, after every
+    message of the main stream -- a second file opened while the first is still being read"""
     dec = sut.Decoder() if cache_max is None else sut.Decoder(compiled_template_cache_max=cache_max)
+    side_dec = sut.Decoder()
     out = []
     try:
         for m in sut.generate_bufr_message(dec, stream):
             ob = sut.observe(m)
             out.append((ob['values'], ob['labels'], m.serialized_bytes))
+            if side is not None:
+                for _ in sut.generate_bufr_message(side_dec, side):
+                    pass
     except BaseException as e:
         out.append(('error', type(e).__name__, str(e)[:300], sut.innermost_sut_frame(e.__traceback__)))
     # the definitions must not leak into descriptors they do not mention: a standard element afterwards
@@ -415,12 +421,14 @@ def check_stream(sc):
         defined |= here
     out.classes = sorted(cls)
     out.nontrivial = bool(cls & {'nonzero_scale_or_reference', 'sequence_with_replication'})
-    for cache_max in (None, 4):
+    side = next((e[3] for e in expected if e[0] == 'control'), None)
+    out.classes.append('another_stream_scanned_in_between')
+    for cache_max, interleave in ((None, False), (4, False), (None if len(stream) % 2 else 4, True)):
         try:
-            got = forkexec.run(decode_stream, stream, cache_max)
+            got = forkexec.run(decode_stream, stream, cache_max, side if interleave else None)
         except forkexec.ChildFailed as e:
             raise runner.HarnessError('forked child failed: %s' % str(e)[:500])
-        tag = 'plain decoder' if cache_max is None else 'compiling decoder'
+        tag = ('plain decoder' if cache_max is None else 'compiling decoder') + (', another stream scanned in between' if interleave else '')
         for k, exp in enumerate(expected):
             kind, evals, elabs, eb = exp
             if k >= len(got):
